@@ -57,11 +57,16 @@ func (d *DBFT[H]) addTransaction(tx Transaction[H]) {
 		// checked against the PreBlock, do it before anybody counts them.
 		d.verifyPreCommitPayloadsAgainstPreBlock()
 
-		if d.IsPrimary() || d.Context.WatchOnly() {
+		if d.IsPrimary() {
 			return
 		}
 
 		if !d.createAndCheckBlock() {
+			return
+		}
+
+		if d.Context.WatchOnly() {
+			d.checkCollected()
 			return
 		}
 
@@ -172,7 +177,7 @@ func (d *DBFT[H]) OnTransaction(tx Transaction[H]) {
 	// 	zap.Bool("request_ok", d.RequestSentOrReceived()),
 	// 	zap.Bool("response_sent", d.ResponseSent()),
 	// 	zap.Bool("block_sent", d.BlockSent()))
-	if !d.IsBackup() || d.NotAcceptingPayloadsDueToViewChanging() ||
+	if d.IsPrimary() || d.NotAcceptingPayloadsDueToViewChanging() ||
 		!d.RequestSentOrReceived() || d.ResponseSent() || d.PreCommitSent() ||
 		d.CommitSent() || d.BlockSent() || len(d.MissingTransactions) == 0 {
 		return
@@ -370,12 +375,30 @@ func (d *DBFT[H]) onPrepareRequest(msg ConsensusPayload[H]) {
 	// A primary can get its own PrepareRequest back from a recovery message
 	// after a restart, it must not answer it with a PrepareResponse (that
 	// would also replace the request in its own preparation slot).
-	if !d.hasAllTransactions() || !d.createAndCheckBlock() || d.IsPrimary() || d.Context.WatchOnly() {
+	if !d.hasAllTransactions() || !d.createAndCheckBlock() || d.IsPrimary() {
+		return
+	}
+
+	if d.Context.WatchOnly() {
+		d.checkCollected()
 		return
 	}
 
 	d.sendPrepareResponse()
 	d.checkPrepare()
+}
+
+// checkCollected is for a watch-only node that has just completed the proposal:
+// it answers nothing, but the (Pre)Commits it has collected before may already
+// be enough to accept the (Pre)Block now that it can be built, and no other
+// message may ever come to re-check them.
+func (d *DBFT[H]) checkCollected() {
+	if d.isAntiMEVExtensionEnabled() {
+		d.checkPreCommit()
+	} else {
+		d.verifyCommitPayloadsAgainstHeader()
+		d.checkCommit()
+	}
 }
 
 func (d *DBFT[H]) processMissingTx() {
